@@ -63,9 +63,16 @@ def type_test(ip, st, v, tyname):
             return TRUE
         if isinstance(v, Opaque) and v.sort == "Key":
             return TRUE
-        if isinstance(v, Opaque) and v.sort in ("V", "Obj", "Val"):
+        if isinstance(v, Opaque) and v.sort == "Val":
+            f = ip.reg.ufun("is_str_Val", ["Val"], "Bool")
+            return AND(NOT(T("(isD %s)" % v.t.s, "Bool")), T("(%s %s)" % (f, v.t.s), "Bool"))      # a dict is not a str
+        if isinstance(v, Ref) and isinstance(st.heap[v.cid], ValCell):
+            t = ip.deref(st, v)
+            f = ip.reg.ufun("is_str_Val", ["Val"], "Bool")
+            return AND(NOT(T("(isD %s)" % t.s, "Bool")), T("(%s %s)" % (f, t.s), "Bool"))
+        if isinstance(v, Opaque) and v.sort in ("V", "Obj"):
             f = ip.reg.ufun("is_str_" + v.sort, [v.sort], "Bool")
-            return T("(%s %s)" % (f, v.t.s if v.sort != "Val" else v.t.s), "Bool")
+            return T("(%s %s)" % (f, v.t.s), "Bool")
         return FALSE
     if tyname == "int":
         if isinstance(v, Num):
